@@ -205,6 +205,47 @@ def elf_seed(d, name, ei_class, ei_data, machine, notes=True, unaligned=False, p
     return s
 
 
+def elf_partial_seed(d):
+    """ELF64 core whose pages are only partly covered by LOAD segments, with the next segment
+    starting in the following page less than a page above the end of the previous one (the page is
+    assembled piecewise by elf_read_page)."""
+    name = "elfpart"
+    data = "@phdr type=NOTE offset=0x1000\n" + note_words("VMCOREINFO", None, 0, raw_desc=VMCI)
+    segs = [(0x1000, 0x100), (0x2080, 0x100), (0x3f00, 0x180), (0x5010, 0x20), (0x5800, 0x900), (0x7ff0, 0x10)]
+    off = 0x1800
+    for pa, sz in segs:
+        data += "@phdr type=LOAD offset=0x%x vaddr=0x%x paddr=0x%x memsz=0x%x\n%02x*0x%x\n" % (
+            off, 0xffffffff80000000 + pa, pa, sz, 0x40 + (pa >> 12), sz)
+        off += (sz + 0xf) & ~0xf
+    open(os.path.join(d, name + ".data"), "w").write(data)
+    cfg = "ei_class = 2\nei_data = 1\ne_machine = 62\ne_phoff = 64\ne_phentsize = 56\nDATA = %s.data\n" % name
+    run_tool("mkelf", name + ".dump", cfg, d)
+    s = Seed(name, "elf", [os.path.join(d, name + ".dump")])
+    map_elf(s)
+    return s
+
+
+def section_offset_cases(seed):
+    """Every section of at least 16 bytes moved to file offsets just below a 4 KiB boundary (and an
+    odd one), so that fixed-size entries straddle file cache entries.  Returns [(what, patches)]."""
+    out = []
+    d = seed.data[0]
+    fs = {f.name: f for f in seed.fields}
+    i = 0
+    while "sh%d.sh_offset" % i in fs:
+        fo, fz = fs["sh%d.sh_offset" % i], fs["sh%d.sh_size" % i]
+        size = fz.get(d)
+        if size >= 16:
+            for base in (0x1000, 0x2000, 0x4000):
+                for dlt in (1, 2, 3, 4, 5, 7, 9, 12):
+                    off = base - dlt
+                    if off + size <= len(d):
+                        out.append(("%s: sh%d.sh_offset = 0x%x (entries straddle a 4 KiB boundary)" % (seed.name, i, off),
+                                    [(0, fo.off, fo.enc(off))]))
+        i += 1
+    return out
+
+
 def elf_xen_seed(d):
     """The suite's xc_core (Xen domain) ELF: sections, string table, .note.Xen, .xen_prstatus, .xen_pfn."""
     src = os.path.join(TOOLS, "elf-xen_prstatus.data")
@@ -567,6 +608,7 @@ def build_seeds(d):
     seeds.append(elf_seed(d, "elf64a64", 2, 1, 183, pagesize_note=False))  # aarch64 without PAGESIZE (item 33)
     seeds.append(elf_seed(d, "elf64flat", 2, 1, 62, flattened=True))
     seeds.append(elf_xen_seed(d))
+    seeds.append(elf_partial_seed(d))
     p = diskdump_seed(d, "kd64", "x86_64", "64")
     s = Seed("kd64", "diskdump", [p]); map_diskdump(s, 0, "64"); seeds.append(s)
     p = binary_seed(d, "kd32", ["diskdump-v6-ia32.data", "basic.expect"])
@@ -702,4 +744,21 @@ def pagesize_cases(seed):
                 if v != orig and len(str(v)) <= n:
                     out.append(("%s: VMCOREINFO PAGESIZE=%d (file %d at 0x%x)" % (seed.name, v, fi, m.start(1)),
                                 [(fi, m.start(1), str(v).zfill(n).encode())]))
+    return out
+
+
+def relocation_cases(seed, sect=5):
+    """The bytes of a section (default: .xen_pfn of the xc_core seed) copied to unaligned file offsets
+    that make its fixed-size entries straddle a 4 KiB file cache boundary, and sh_offset pointed
+    there.  The file still means the same, so the outcome must equal the unmodified seed's.
+    Returns [(what, patches)]."""
+    d = seed.data[0]
+    fs = {f.name: f for f in seed.fields}
+    fo, fz = fs["sh%d.sh_offset" % sect], fs["sh%d.sh_size" % sect]
+    off, size = fo.get(d), fz.get(d)
+    body = d[off:off + size]
+    out = []
+    for x in (0x5000 - 12, 0x5000 - 20, 0x6000 - 15, 0x6000 - 9, 0x7000 - 6, 0x7000 - 28, 0x5000 - 8, 0x6000 - 16):
+        out.append(("%s: sh%d relocated to 0x%x [same meaning as the unmodified seed]" % (seed.name, sect, x),
+                    [(0, x, body), (0, fo.off, fo.enc(x))]))
     return out
